@@ -47,6 +47,7 @@ pub fn gen(rng: &mut Rng, tier: Tier, idx: u64) -> Case {
     let (ws, tail) = gen_write_script(rng, len, pp, ep);
     c.write_script = ws;
     c.write_tail = tail;
+    c.writer_style = rng.below(2) as u8;
     c
 }
 
